@@ -40,7 +40,8 @@ def framedBodyIO (c : Codec) (x : ReaderIO) (dstLen : Nat) : ReaderIO × Chunk :
         | .ok =>
           let (r', ch) := decodeInto c { x.r with rest := s2.data, nbytes := x.r.nbytes + 4 + deN l } input dstLen
           (⟨r', s2.script⟩, ch)
-        | _ => (⟨{ x.r with rest := s2.data, nbytes := x.r.nbytes + 4 + input.length }, s2.script⟩, .err)
+        | .eof => (⟨{ x.r with rest := s2.data, nbytes := x.r.nbytes + 4 }, s2.script⟩, .eof)   -- io.EOF passed on: a clean end
+        | .unexpected => (⟨{ x.r with rest := s2.data, nbytes := x.r.nbytes + 4 + input.length }, s2.script⟩, .err)
 
 def unframedBodyIO (c : Codec) (x : ReaderIO) (pre : Nat) (dstLen : Nat) : ReaderIO × Chunk :=
   match readToEOF (fuelFor x.src) x.src blockCap (x.r.header.take pre) with
@@ -76,5 +77,29 @@ def readAllWithIO (c : Codec) : ReaderIO → List Nat → Option Bytes
     | (x', .data b) => (readAllWithIO c x' ks).map (b ++ ·)
     | (_, .eof) => some []
     | (_, .err) => none
+
+end KV.Model.Xerial
+
+namespace KV.Model.Xerial
+open KV KV.RW KV.Model.Source
+
+/-- `(*xerialWriter).ReadFrom(r)` in framed mode (what `io.Copy(compressor, bytes)` calls — the protocol encoder's
+`ReadFrom` for record keys and values): read into the free space of the 32 KiB buffer, extend the input by what
+arrived BEFORE looking at the error, `fullEnough` → Flush, stop at EOF (`nil`) or at an error.  (`full()`/`grow()`
+is dead code in framed mode, see Model/Xerial.) -/
+def readFromLoop (c : Codec) : Nat → Writer → Src → Writer × Src
+  | 0, w, s => (w, s)
+  | fuel + 1, w, s =>
+    match s.read (blockCap - w.input.length) with
+    | (b, eof, s') =>
+      let w1 : Writer := { w with input := w.input ++ b }
+      let w2 := if blockCap - w1.input.length < slack then flush c w1 else w1
+      if eof then (w2, s') else readFromLoop c fuel w2 s'
+
+/-- unframed mode: the same loop never flushes and grows its buffer — the read-to-EOF loop of Model/Source -/
+def readFromUnframed (w : Writer) (s : Src) : Writer :=
+  match (readToEOF (fuelFor s) s blockCap w.input).1 with
+  | some inp => { w with input := inp }
+  | none => w
 
 end KV.Model.Xerial
